@@ -44,7 +44,7 @@ def plan(tier):
         return {"runs": 400000, "slice": 2000, "budget_s": 1500,
                 "slice_timeout_s": 600}
     return {"runs": 24000, "slice": 500, "budget_s": 120,
-            "slice_timeout_s": 200}
+            "slice_timeout_s": 600}
 
 
 # --------------------------------------------------------------------------
